@@ -163,7 +163,8 @@ pub fn run(tier: Tier) -> Report {
 
     // ---- 2. statement skeletons --------------------------------------------------------
     let mut acc = Acc { samples: Some(Samples::new(4)), ..Default::default() };
-    let bodies = [E::lit("a"), E::Alt(vec![E::lit("a"), E::r("X")]), E::cmd("c"), E::Seq(vec![E::lit("a"), E::lit("b")])];
+    // (literals starting with `:` and `=` stand right after the definition operator in the tight layout)
+    let bodies = [E::lit("a"), E::Alt(vec![E::lit("a"), E::r("X")]), E::cmd("c"), E::Seq(vec![E::lit("a"), E::lit("b")]), E::Alt(vec![E::lit(":x"), E::lit("=y")]), E::Seq(vec![E::lit("=z"), E::lit(":w")])];
     let mut skeletons = 0u64;
     for b0 in &bodies {
         for b1 in &bodies {
@@ -193,6 +194,12 @@ pub fn run(tier: Tier) -> Report {
                                 let text = render_canonical(&p.toks);
                                 skeletons += 1;
                                 expect(&mut acc, "statement", &g, &text, "statement skeleton");
+                                // the tightest layout: no blank wherever blanks are optional
+                                let tight = render_with(&p.toks, |_, glue| if matches!(glue, Glue::Opt0 | Glue::Opt1 | Glue::Stmt) { Some(String::new()) } else { None });
+                                if tight != text {
+                                    skeletons += 1;
+                                    expect(&mut acc, "statement", &g, &tight, "statement skeleton, tightest layout");
+                                }
                             }
                         }
                     }
